@@ -282,6 +282,33 @@ func runCheck(id, tier, entryRe string, workers int, trace bool, sk solver.Kind,
 	if timeoutMS > 0 {
 		cfg.SolverTimeout = timeoutMS
 	}
+	// per-check engine settings: "//verif:config cap=300 steps=20000000 decisions=8000 paths=500000"
+	for _, line := range readTagged(id, "config") {
+		for _, kv := range strings.Fields(line) {
+			p := strings.SplitN(kv, "=", 2)
+			if len(p) != 2 {
+				continue
+			}
+			n, err := strconv.Atoi(p[1])
+			if err != nil {
+				continue
+			}
+			switch p[0] {
+			case "cap":
+				cfg.ConcretizeCap = n
+			case "steps":
+				cfg.MaxSteps = n
+			case "decisions":
+				cfg.MaxDecisions = n
+			case "paths":
+				if n > cfg.MaxPaths {
+					cfg.MaxPaths = n
+				}
+			case "alloc":
+				cfg.AllocBudget = uint64(n)
+			}
+		}
+	}
 	cfg.Deadline = t0.Add(time.Duration(maxSec) * time.Second)
 
 	// run entries concurrently
